@@ -1,5 +1,6 @@
 /* stage <id> <status> [ignored args...]
  * Appends "<id>\n" to the file named by $STAGE_LOG (O_APPEND, one write) and exits with <status>.
+ * An id "-" writes nothing; an extra argument d<N> makes it sleep N milliseconds before it ends.
  * With status "sigN" kills itself with signal N.  Used as a pipeline whose effect is observable
  * without touching the shell's stdout/stderr. */
 #include <fcntl.h>
@@ -11,7 +12,7 @@
 int main(int argc, char **argv) {
     if (argc < 3) return 2;
     const char *log = getenv("STAGE_LOG");
-    if (log) {
+    if (log && strcmp(argv[1], "-") != 0) {
         int fd = open(log, O_WRONLY | O_APPEND | O_CREAT, 0644);
         if (fd >= 0) {
             char buf[256];
@@ -20,6 +21,8 @@ int main(int argc, char **argv) {
             close(fd);
         }
     }
+    for (int i = 3; i < argc; i++)
+        if (argv[i][0] == 'd' && argv[i][1] >= '0' && argv[i][1] <= '9') usleep(1000 * atoi(argv[i] + 1));
     if (strncmp(argv[2], "sig", 3) == 0) {
         signal(atoi(argv[2] + 3), SIG_DFL);
         kill(getpid(), atoi(argv[2] + 3));
